@@ -373,6 +373,7 @@ impl System for VSystem
         {
             let cmd = match parse_vcmd(line) { Some(cmd) => cmd, None => { out.push(Ok(bad())); all_ok = false; continue; } };
             if cmd.kind == "false" { out.push(Ok(bad())); all_ok = false; continue; }
+            if cmd.kind == "killed" { out.push(Ok(CommandLineOutput{out : "".to_string(), err : "killed".to_string(), code : None, success : false})); all_ok = false; continue; }
             /* the rule this command belongs to: the one with exactly these targets */
             for r in rules.iter() { if r.tg == cmd.tg { rid = r.rid(); } }
             if rid == "" { rid = format!("?{}", line); }
